@@ -1470,6 +1470,14 @@ def _tanh(s):
     return Sym(f_tanh(s.real()), s.nan)
 
 
+def _sinh(s):
+    return Sym(uf("sinh", _R, _R)(s.real()), s.nan)
+
+
+def _cosh(s):
+    return Sym(uf("cosh", _R, _R)(s.real()), s.nan)
+
+
 def _radians(s):
     return Sym(s.real() * PI / 180, s.nan)
 
@@ -1541,6 +1549,8 @@ class NPShim:
     exp = staticmethod(_lift1(_exp, "f"))
     log = staticmethod(_lift1(_log, "f"))
     tanh = staticmethod(_lift1(_tanh, "f"))
+    sinh = staticmethod(_lift1(_sinh, "f"))
+    cosh = staticmethod(_lift1(_cosh, "f"))
     radians = staticmethod(_lift1(_radians, "f"))
     deg2rad = staticmethod(_lift1(_radians, "f"))
     degrees = staticmethod(_lift1(_degrees, "f"))
